@@ -32,7 +32,7 @@ OUTSIDE = ["sequences longer than K", "constants= folding through autoray.lazy",
 
 
 def bounds(tier):
-    return dict(K=2 if tier == "quick" else 3, pool="19 requests differing from a base in one component (output order, one size, relabelling, optimize kind, option flags, single-operand forms)",
+    return dict(K=2 if tier == "quick" else 3, pool="19 requests differing from a base in one component (output order, one size, relabelling, optimize kind, option flags, single-operand forms) + 7 requests issued with an explicit size_dict= (shared dict, unused entries, reversed population order, relabelling); for those the cached path must equal the uncached path",
                 entry_points=["einsum", "array_contract", "array_contract_path", "array_contract_expression", "einsum_expression", "array_contract_tree"], cache_flag="solver-chosen per call")
 
 
@@ -79,7 +79,81 @@ def items(tier, seed):
     for ep in ENTRY:
         for first in range(n):
             its.append({"entry": ep, "first": first, "tier": tier})
+    for first in range(len(sized_pool())):
+        for opt in ("optimal", "greedy"):
+            its.append({"entry": "sized", "first": first, "optimize": opt, "tier": tier})
     return its
+
+
+def sized_pool():
+    """requests issued with an explicit size_dict= (possibly shared between
+    sub-networks, with unused entries, or populated in another order)"""
+    D = {"p": 2, "q": 3, "r": 2, "s": 3, "t": 2}
+    D2 = dict(reversed(list(D.items())))
+    E = {"p": 3, "q": 2, "r": 3, "s": 2, "t": 3}
+    P = [
+        dict(inputs=(("p", "q"), ("q", "r"), ("r", "s")), output=("p", "s"), size_dict=D),
+        dict(inputs=(("q", "r"), ("r", "s"), ("s", "t")), output=("q", "t"), size_dict=D),  # same structure, other sizes, same dict
+        dict(inputs=(("p", "q"), ("q", "r"), ("r", "s")), output=("p", "s"), size_dict=D2),  # same contraction, dict populated in reverse
+        dict(inputs=(("q", "r"), ("r", "s"), ("s", "t")), output=("q", "t"), size_dict=D2),
+        dict(inputs=(("p", "q"), ("q", "r"), ("r", "s")), output=("p", "s"), size_dict=E),  # same labels, other sizes
+        dict(inputs=(("p", "q"), ("q", "r"), ("r", "s")), output=("p", "s"), size_dict={k: D[k] for k in "pqrs"}),  # no unused entry
+        dict(inputs=(("s", "r"), ("r", "q"), ("q", "p")), output=("s", "p"), size_dict=D),  # relabelled against the same dict
+    ]
+    return P
+
+
+def run_sized(item, rec):
+    import cotengra as ctg
+
+    I = importlib.import_module("cotengra.interface")
+    P = sized_pool()
+    K = 2 if item["tier"] == "quick" else 3
+    saved = I.__dict__.get("hash", None)
+    I.hash = structural
+    opt = item["optimize"]
+    try:
+
+        def harness(ctx):
+            clear_all()
+            seq = []
+            for k in range(K):
+                ri = item["first"] if k == 0 else symx.choose(f"req{k}", len(P))
+                cache = bool(symx.choose(f"cache{k}", 2))
+                which = ["path", "expr"][symx.choose(f"w{k}", 2)]
+                seq.append([ri, cache, which])
+                req = P[ri]
+                n = len(req["inputs"])
+                size = req["size_dict"]
+                case = dict(entry="sized", optimize=opt, seq=[list(x) for x in seq])
+                if which == "path":
+                    got = ctg.array_contract_path(req["inputs"], req["output"], size_dict=dict(size), optimize=opt, cache=cache)
+                    I._PATH_CACHE, keep = {}, I._PATH_CACHE
+                    try:
+                        want = ctg.array_contract_path(req["inputs"], req["output"], size_dict=dict(size), optimize=opt, cache=False)
+                    finally:
+                        I._PATH_CACHE = keep
+                    bad = not (valid_path(got, n) and [tuple(p) for p in got] == [tuple(p) for p in want])
+                    rec.refute(ctx, bad, f"call {k}: cached path == uncached path", lambda m, case=case, got=got, want=want: dict(case=case, call=k, got=[list(p) for p in got], want=[list(p) for p in want], signature=["C13s", opt, str(seq)]))
+                else:
+                    inputs = tuple("".join(t) for t in req["inputs"])
+                    output = "".join(req["output"])
+                    arrays = symarr.sym_arrays(inputs, size, prefix=f"c{k}x")
+                    expr = ctg.array_contract_expression(req["inputs"], req["output"], size_dict=dict(size), optimize=opt, cache=cache)
+                    val = symarr.as_obj_array(expr(*arrays))
+                    bad = symarr.diff_formula(val, symarr.dense_einsum(inputs, output, size, arrays))
+                    rec.refute(ctx, bad, f"call {k}: expression value", lambda m, case=case: dict(case=case, call=k, signature=["C13s", opt, str(seq), "value"]))
+
+        out = symx.explore(harness, max_paths=20000, deadline_s=(60 if item["tier"] == "quick" else 600))
+        rec.add_explore(out)
+        rec.sample(dict(entry="array_contract_path / array_contract_expression with explicit size_dict=", first=item["first"], optimize=opt, K=K, sequences=out.paths))
+    finally:
+        if saved is None:
+            I.__dict__.pop("hash", None)
+        else:
+            I.hash = saved
+        clear_all()
+    rec.validated += 1
 
 
 def int_hash(n):
@@ -157,6 +231,8 @@ def do_call(ep, req, cache, arrays):
 
 def run_item(item, rec):
     warnings.simplefilter("ignore")
+    if item["entry"] == "sized":
+        return run_sized(item, rec)
     I = importlib.import_module("cotengra.interface")
     P = pool()
     ep, first, tier = item["entry"], item["first"], item["tier"]
@@ -257,8 +333,28 @@ def judge(kind, got, req, arrays, strip, ep):
 def replay(v):
     """re-run the sequence on the real code (real hash), float arrays"""
     warnings.simplefilter("ignore")
-    P = pool()
     case = v["case"]
+    if case["entry"] == "sized":
+        import cotengra as ctg
+
+        P = sized_pool()
+        clear_all()
+        for k, (ri, cache, which) in enumerate(case["seq"]):
+            req = P[ri]
+            if which == "path":
+                got = ctg.array_contract_path(req["inputs"], req["output"], size_dict=dict(req["size_dict"]), optimize=case["optimize"], cache=bool(cache))
+                I = importlib.import_module("cotengra.interface")
+                I._PATH_CACHE, keep = {}, I._PATH_CACHE
+                try:
+                    want = ctg.array_contract_path(req["inputs"], req["output"], size_dict=dict(req["size_dict"]), optimize=case["optimize"], cache=False)
+                finally:
+                    I._PATH_CACHE = keep
+                if [tuple(p) for p in got] != [tuple(p) for p in want]:
+                    return True, f"array_contract_path(size_dict=..., optimize={case['optimize']!r}) sequence {case['seq']}: call {k} returned {list(got)} with the cache, {list(want)} without (request {ri}: {req['inputs']} sizes {req['size_dict']})"
+            else:
+                ctg.array_contract_expression(req["inputs"], req["output"], size_dict=dict(req["size_dict"]), optimize=case["optimize"], cache=bool(cache))
+        return False, "cached and uncached paths agree"
+    P = pool()
     ep = case["entry"]
     clear_all()
     rng = np.random.default_rng(3)
